@@ -92,6 +92,15 @@ class C02(Check):
             add("bytesvec", [G.hexb(rng, n)], "vec-over-2^16")
             add("box_u8", [G.hexb(rng, n)], "vec-over-2^16")
             add("string", [("61" * n)], "vec-over-2^16")
+        # long strings with multi-byte characters lying ACROSS the block boundaries a chunked reader or validator would use
+        # (4 KiB .. 128 KiB): every alignment of a 2-, 3- and 4-byte character around the boundary
+        for bnd in (4096, 8192, 16384, 32768, 65536, 131072):
+            for ch in ("\u00e9", "\u20ac", "\U0001f600"):
+                k = len(ch.encode("utf-8"))
+                for off in range(1, k):
+                    t = "a" * (bnd - off) + ch + "b" * 3
+                    add("string", [t.encode("utf-8").hex()], "string-char-across-block-boundary")
+            add("string", [("\u20ac" * (bnd // 3 + 2)).encode("utf-8").hex()], "string-char-across-block-boundary")
         add("vec_varint", G.lst([[str(i % 200)] for i in range(65537)]), "vec-over-2^16")
         add("tx", G.tx_desc(rng, 2, ["gen"], 1, [False], 0, extra_len=65537), "vec-over-2^16")
         if thorough:
